@@ -69,6 +69,11 @@ def _case(draw, tier):
             ops.append(["query_partial", c, draw(st.sampled_from(["let", "block"])), draw(st.sampled_from(["break", "close", "the"]))])
         else:
             ops.append(["query", c, draw(st.sampled_from(["let", "block", "block_entity", "rule_block", "rule_block_entity"]))])
+    if chance(draw, 1, 4):
+        # a class without any field (its instances have an empty __dict__) and an undecorated subclass of it
+        for _ in range(draw(st.integers(1, 3))):
+            ops.insert(draw(st.integers(0, len(ops))), ["new_bare", draw(st.sampled_from(["base", "sub"]))])
+        ops.append(["query_bare"])
     if chance(draw, 1, 12):
         # (KF-65, open: one case in twelve has a construction whose own initialisation raises)
         ops.insert(draw(st.integers(0, len(ops))), ["new_raising", draw(st.integers(0, len(nodes) - 1))])
@@ -119,6 +124,9 @@ def check(case) -> Outcome:
     nodes = case["nodes"]
     n_reg_before = len(P.symbols_registry)
     classes, counters = _make_classes(nodes)
+    Bare = symbol(type("Bare", (), {}))
+    BareSub = type("BareSub", (Bare,), {})
+    bare_model = []
     log = []            # every object constructed concretely; kept alive for the whole case
     model = []          # since the last clear
     sym_seen = False
@@ -226,7 +234,25 @@ def check(case) -> Outcome:
                     c.clear()
                 Variable._cache_.clear()
                 model = []
+                bare_model = []
                 cls_set.add("clear")
+            elif k == "new_bare":
+                o = (Bare if op[1] == "base" else BareSub)()
+                if type(o) not in (Bare, BareSub):
+                    return fail("concrete_construction", f"step {step} {op}: a field-less class constructed outside symbolic "
+                                                         f"mode gave {o!r}", classes=sorted(cls_set))
+                log.append(o)
+                bare_model.append(o)
+                cls_set.add("fieldless_class")
+            elif k == "query_bare":
+                try:
+                    res = list(an(entity(let(Bare))).evaluate())
+                except Exception as e:
+                    return fail("exception", f"step {step} {op}: {type(e).__name__}: {e}", classes=sorted(cls_set))
+                if Counter(map(id, res)) != Counter(map(id, bare_model)):
+                    return fail("missing_instances" if len(res) < len(bare_model) else "extra_instances",
+                                f"step {step} {op}: no-domain variable of a field-less class returned {len(res)} instance(s), "
+                                f"{len(bare_model)} were constructed", classes=sorted(cls_set), features=sorted(cls_set))
             elif k == "new_raising":
                 try:
                     classes[op[1]](13)
